@@ -5,7 +5,8 @@ from __future__ import annotations
 import ast
 
 from ..cfg import CFG
-from ..core import AnalysisError
+from ..core import AnalysisError, walk_own
+from ..astutil import cond_terms, inside
 from ..defuse import DefUse, Terms, show, walk_term
 from ..defuse import key as tkey
 from ..tutil import find_calls, lin, np_call, strip_conv
@@ -49,6 +50,9 @@ def run(ctx):
     # too (shared with C02b/d)
     from .c02 import _predict as _c02_predict
     _c02_predict(ctx, prog.func("mokapot.brew._predict"))
+    # ... and so is the row index the readers hand to that bookkeeping
+    from .c05 import _parquet_index
+    _parquet_index(ctx)
 
 
 def _label_column_ok(tg):
@@ -346,6 +350,8 @@ def _check_predict(ctx, f):
                   "from the same fold slices under the same fold index",
                   f"score list filled from {_sh(fill_s)}, target list "
                   f"from {_sh(fill_t)}", node=call)
+    _every_fold_calibrated(ctx, f, T, cfg, call, loop)
+    _no_narrowing(ctx, f, T)
     # the RuntimeError handler raises an explicit error and yields nothing
     tr = cfg.enclosing(call, (ast.Try,))
     ctx.require(tr is not None, f"{f.qual}: calibration is not inside try")
@@ -368,6 +374,127 @@ def _check_predict(ctx, f):
 
 def _sh(x):
     return None if x is None else show(x[0], 80)
+
+
+def _every_fold_calibrated(ctx, f, T, cfg, call, loop):
+    """Every entry of the list of per-fold scores is the calibrated vector,
+    except for a model whose estimator has no decision_function (its
+    predictions are probabilities): that is the only accepted reason, and
+    it must be what the code actually tests."""
+    from ..events import container_events, root_name
+    from ..tutil import callee_of
+    evs = [e for e in container_events(f.node, T, cfg)
+           if e.kind == "append" and inside(e.node, loop)]
+    target = None
+    for e in evs:
+        if any(isinstance(x, tuple) and x and x[0] == "call"
+               and x[1] == TWINS[0] for a in e.args for x in walk_term(a)):
+            target = root_name(e.recv)
+    ctx.require(target is not None, f"{f.qual}: the list that receives the "
+                "calibrated scores was not found")
+    MODEL = ("elem", ("param", "models"))
+
+    def no_decision_function(node):
+        """is ``node`` only reached when the estimator lacks
+        decision_function?"""
+        # (1) inside 'except AttributeError' of a try whose body reads
+        # <model>.estimator.decision_function
+        cur = node
+        while cur is not None and cur is not loop:
+            par = cfg.parent.get(id(cur))
+            if isinstance(par, ast.ExceptHandler):
+                tr = cfg.parent.get(id(par))
+                names = set()
+                if par.type is not None:
+                    for x in ast.walk(par.type):
+                        if isinstance(x, ast.Name):
+                            names.add(x.id)
+                        elif isinstance(x, ast.Attribute):
+                            names.add(x.attr)
+                if names == {"AttributeError"} and isinstance(tr, ast.Try):
+                    for x in ast.walk(ast.Module(body=tr.body,
+                                                 type_ignores=[])):
+                        if isinstance(x, ast.Attribute) and \
+                                x.attr == "decision_function" and \
+                                T.of(x.value) == ("attr", MODEL,
+                                                  "estimator"):
+                            return True
+            cur = par
+        # (2) under a test 'not hasattr(<model>.estimator,
+        # "decision_function")'
+        for t, outcome in cond_terms(cfg, T, node):
+            if t[0] == "call" and t[1] == "builtins.hasattr" and \
+                    t[2] == (("attr", MODEL, "estimator"),
+                             ("const", "decision_function")) and \
+                    not outcome:
+                return True
+        return False
+
+    bad = []
+    n_cal = 0
+    for e in evs:
+        if root_name(e.recv) != target:
+            continue
+        v = e.args[0] if e.args else None
+        if v is not None and v[0] == "call" and v[1] == TWINS[0]:
+            n_cal += 1
+            continue
+        if no_decision_function(e.node):
+            continue
+        bad.append(e)
+    ctx.check(not bad and n_cal >= 1, "C11b-every-fold-calibrated", f,
+              "every fold's scores are calibrated before they are combined; "
+              "the only exception is an estimator without decision_function",
+              "; ".join(
+                  f"line {getattr(e.node, 'lineno', '?')}: "
+                  f"'{target}' receives {show(e.args[0], 70) if e.args else '?'}"
+                  " without calibration, on a path that is not restricted "
+                  "to estimators lacking decision_function" for e in bad)
+              or "no calibrated append found",
+              node=bad[0].node if bad else loop)
+
+
+_NARROW = {"float32", "float16", "half", "single", "int32", "int16", "int8",
+           "numpy.float32", "numpy.float16", "numpy.int32", "f4", "f2",
+           "<f4", "<f2"}
+
+
+def _narrow_dtype(t):
+    if t is None:
+        return False
+    if t[0] == "const":
+        return t[1] in _NARROW
+    if t[0] in ("name", "free", "attr"):
+        nm = t[1] if t[0] != "attr" else t[2]
+        return isinstance(nm, str) and nm.split(".")[-1] in _NARROW
+    return False
+
+
+def _no_narrowing(ctx, f, T):
+    """The combined scores keep the precision of the calibrated scores: a
+    narrowing cast makes distinct model outputs equal, so the order within
+    a fold is no longer exactly the model's order."""
+    bad = []
+    for n in walk_own(f.node):
+        if isinstance(n, (ast.Yield, ast.Return)) and n.value is not None:
+            for x in walk_term(T.of(n.value)):
+                if not (isinstance(x, tuple) and x):
+                    continue
+                if x[0] == "call":
+                    kw = dict(x[3])
+                    if _narrow_dtype(kw.get("dtype")):
+                        bad.append((n, x))
+                    if x[1].split(".")[-1] in _NARROW and x[1].startswith(
+                            "numpy."):
+                        bad.append((n, x))
+                elif x[0] == "mcall" and x[2] in ("astype", "view"):
+                    a = x[3][0] if x[3] else dict(x[4]).get("dtype")
+                    if _narrow_dtype(a):
+                        bad.append((n, x))
+    ctx.check(not bad, "C11b-no-precision-loss", f,
+              "the returned scores are not cast to a narrower type",
+              "; ".join(f"line {n.lineno}: {show(x, 80)}" for n, x in bad),
+              node=bad[0][0] if bad else f.node)
 
 
 def _filled_by(f, du, T, lname):
